@@ -1315,8 +1315,11 @@ class StrictSimplexMacro(Macro):
         s.add_ineqs(comparisons)
         result = s.handle_assertion()
         strict_tms = [tm for tm in new_args if tm.is_less() or tm.is_greater()]
-        if not isinstance(result, ProofTerm) or not strict_tms:
+        if not isinstance(result, ProofTerm):
             return result
+        if not strict_tms:
+            # only non-strict comparisons: the contradiction is already in terms of new_args
+            return self.rename_back(result, subst_vars)
 
         # for strict comparisons S, get the proof term ⊢ ∃t. t > 0 ⟶ S'(t)
         pt_exists = real.relax_strict_simplex_macro().get_proof_term(strict_tms)
@@ -1346,6 +1349,10 @@ class StrictSimplexMacro(Macro):
         pt_not_exists = apply_theorem("negI", pt_neg_conj.implies_intr(And(*ordered_comparisons))).implies_intr(var > 0).forall_intr(var).on_prop(rewr_conv('forall_exists'), top_conv(rewr_conv("not_imp"), top_conv(rewr_conv("double_neg"))))
         # tableau ⊢ false
         pt_0 = apply_theorem('negE', pt_not_exists, pt_conj_exists)
+        return self.rename_back(pt_0, subst_vars)
+
+    def rename_back(self, pt_0, subst_vars):
+        """From new_args ⊢ false (over the fresh variables) get args ⊢ false."""
         # ⊢ tableau --> false
         pt_1 = functools.reduce(lambda x, y: x.implies_intr(y), pt_0.hyps, pt_0)
         # pt_1 = apply_theorem('negI', pt_0.implies_intr(pt_0.hyps[0]))
